@@ -312,6 +312,11 @@ def make_steps(columns: List[str]) -> List[Dict[str, Any]]:
     for nm, e in (("count", meth("count", col(v))), ("size", fn0("_size"))):
         S.append(_step("R4", "project-" + nm, "C", "project", {"ops": [[Q, e]], "group_by": gb}))
         S.append(_step("R4", "window-" + nm, "C", "extend", ext([[Q, e]], partition_by=part)))
+    # ---- R4 in an ORDERED window: the whole-partition aggregates contradict the ordering (only the catalogued ordered-window functions are allowed)
+    if c1:
+        for m in ("count", "max", "min", "sum", "std", "var", "mean", "cumsum", "cummax"):
+            intent = "C" if m in aggregators("ordered-window") else "V"
+            S.append(_step("R4", "ordered-window-" + m, intent, "extend", ext([[Q, meth(m, col(v))]], partition_by=1, order_by=[c0])))
     # ---- R5 joins
     jn = lambda right, on, check=False, jt="left": {"right_columns": right, "on": on, "check": check, "jointype": jt}  # noqa: E731
     S.append(_step("R5", "right-key-missing", "V", "natural_join", jn(["rk", "rv"], [[c0, "zz_r"]])))
@@ -507,6 +512,8 @@ def classify(spec, step, kind: str, detail: Dict[str, Any]) -> str:
             return "C26:ExtendNode.__init__:non-aggregating-method-of-a-column-in-window"
         if step["op"] == "extend" and step["name"] == "window-column-plus-constant" and "bin" in e and "col" in e["l"] and "const" in e["r"]:
             return "C26:ExtendNode.__init__:column-operator-constant-in-window"
+        if step["op"] == "extend" and step["name"] == "ordered-window-mean" and e.get("method") == "mean":
+            return "C26:expr_rep.fn_names_that_contradict_ordered_windowed_situation:mean-accepted-in-ordered-window"
     if step["op"] == "extend" and step["params"].get("partition_by") == 1 and not step["params"].get("order_by") and step["intent"] == "C":
         # a whole-table window (partition_by=1) whose operators do not by themselves imply windowing (_size) is MERGED into a preceding
         # row-wise extend by extend_parsed_ (partition_by=1 counts as 'compatible' with no partition): the row-wise assignments then sit in a windowed node
